@@ -318,12 +318,16 @@ def _diff(snap: dict[str, Any] | None, base: dict[str, Any] | None) -> Any:
 
 
 def _cache_for(root_dir: str, eff_flags: list[str], made: dict[str, str], tag: str = "") -> str:
-    """One cache directory per distinct effective global option set of a group; it starts empty, so the first build that uses
+    """One cache directory per distinct effective global option set of a group; a non-default one starts empty, so the first build that uses
     it is cold and the later ones only re-check the (always modified) user modules."""
     key = common.fingerprint(sorted(eff_flags), tag)
     if key not in made:
         made[key] = os.path.join(root_dir, "cache-" + key)
-        os.makedirs(made[key], exist_ok=True)
+        if not eff_flags and not tag:
+            # default options: copy of the typeshed-only base cache built once per pool
+            shutil.copytree(inproc.base_cache(basic._ROOT, []), made[key])
+        else:
+            os.makedirs(made[key], exist_ok=True)
     return made[key]
 
 
@@ -351,6 +355,11 @@ def equiv_group(runs: list[dict[str, Any]], files: dict[str, str], build: bool =
                 res["mods"] = {m: _diff(s, base["mods"].get(m)) for m, s in res["mods"].items()}
             out.append(res)
             shutil.rmtree(d, ignore_errors=True)
+            # modules imported from the case directory by the code under test (plugins) must not survive into the next run
+            for name, mod in list(sys.modules.items()):
+                if str(getattr(mod, "__file__", None) or "").startswith(gdir):
+                    sys.modules.pop(name, None)
+            sys.path[:] = [x for x in sys.path if not x.startswith(gdir)]
     finally:
         shutil.rmtree(gdir, ignore_errors=True)
     return {"runs": out}
